@@ -39,6 +39,8 @@ protected:
   }
   void ConvertSOS2FromPL(const ItemType& cc) {
     const int d = int(cc.get_vars().size()-1);
+    if (d < 1)                        // single point: nothing to enforce
+      return;                         // (and log2(0) is not an int)
     const int r = int(std::ceil(std::log2(d)));
     auto lambda = cc.get_vars();
     lambda.push_back(-1);             // reserve for 1 extra var
